@@ -143,11 +143,11 @@ Print Assumptions C18_sink_batch_continue_refuted.
 (* at most one worker per name can deliver at any moment: the worker map has one entry per name, and every worker that
    was replaced in or dropped from the map had stopped - so two workers never forward the same pipe concurrently, and
    the position a descriptor holds is written by one worker at a time *)
-Theorem C18_sup_one_worker_per_name : forall c evs, NoDup (keys c) -> Forall valid_ev evs ->
-  let s := srun true evs (sup0 c) in
+Theorem C18_sup_one_worker_per_name : forall ns c evs, NoDup (keys c) -> Forall valid_ev evs ->
+  let s := srun true evs (sup0_f ns c) in
   NoDup (keys (wmap s)) /\ (forall n w, In (n, w) (retired s) -> live w = false).
 Proof.
-  intros c evs ND Hv s. pose proof (srun_inv evs (sup0 c) Hv (sup0_inv c ND)) as I. fold s in I.
+  intros ns c evs ND Hv s. pose proof (srun_inv evs (sup0_f ns c) Hv (sup0_f_inv ns c ND)) as I. fold s in I.
   split; [exact (i_wkeys s I)|exact (retired_not_live s I)].
 Qed.
 Print Assumptions C18_sup_one_worker_per_name.
@@ -169,20 +169,29 @@ Print Assumptions C18_sup_sync_positions.
 (* progress of the supervisor: from every reachable state, once the configuration stays as it is and the stopping workers
    have reached their loop heads, two syncs later every configured worker runs, alive, on the forwarder's current
    descriptor of its name - whatever happened before (start failures included) *)
-Theorem C18_sup_settles : forall c evs, NoDup (keys c) -> Forall valid_ev evs ->
-  settled (do_sync (exit_all (do_sync (srun true evs (sup0 c))))).
-Proof. intros c evs ND Hv. apply two_syncs_settle. exact (srun_inv evs (sup0 c) Hv (sup0_inv c ND)). Qed.
+Theorem C18_sup_settles : forall ns c evs, NoDup (keys c) -> Forall valid_ev evs ->
+  settled (do_sync (exit_all (do_sync (srun true evs (sup0_f ns c))))).
+Proof. intros ns c evs ND Hv. apply two_syncs_settle. exact (srun_inv evs (sup0_f ns c) Hv (sup0_f_inv ns c ND)). Qed.
 Print Assumptions C18_sup_settles.
+
+(* a sink that cannot be created (sink.NewSink fails for the names [ns]: runWorker returns the error) starts no worker and
+   leaves no entry for the name - and the invariants above hold for every such event list too ([SSync _ ns] is an
+   event); the progress theorem is about syncs in which every sink can be created *)
+Theorem C18_sup_no_sink_no_worker : forall ns s n, sinv s -> in_names n ns = true ->
+  (forall w, lookup n (wmap s) = Some w -> sw_state w = 2) ->
+  lookup n (wmap (do_sync_f ns s)) = None \/ ~ In n (keys (cfg s)).
+Proof. exact no_sink_no_worker. Qed.
+Print Assumptions C18_sup_no_sink_no_worker.
 
 (* the code before the repair (a failed start left the worker's state at running): the worker is in the map, marked
    running, not alive, and no number of syncs replaces it *)
 Theorem C18_sup_start_failure_unmarked_refuted : forall k,
-  lookup 7 (wmap (srun false (SStartFail 7 :: repeat (SSync None) k) (sup0 [(7, 1)]))) = Some (mkW 0 0 false).
+  lookup 7 (wmap (srun false (SStartFail 7 :: repeat (SSync None []) k) (sup0 [(7, 1)]))) = Some (mkW 0 0 false).
 Proof. exact unmarked_start_failure_sticks. Qed.
 Print Assumptions C18_sup_start_failure_unmarked_refuted.
 
 (* non-vacuity: a configuration change replaces a worker in two syncs; the kept worker keeps its position *)
 Example C18_sup_nonvacuous :
-  let s := srun true [SDeliver 1 4; SDeliver 2 3; SSync (Some [(1, 0); (2, 9)]); SExit 2; SSync None] (sup0 [(1, 0); (2, 0)]) in
+  let s := srun true [SDeliver 1 4; SDeliver 2 3; SSync (Some [(1, 0); (2, 9)]) []; SExit 2; SSync None []] (sup0 [(1, 0); (2, 0)]) in
   view_descs s = [(1, (0, 4)); (2, (9, 0))] /\ view_workers s = [(1, (0, true)); (2, (0, true))] /\ length (retired s) = 1.
 Proof. vm_compute. repeat split. Qed.
